@@ -9,11 +9,15 @@ type nat =
 | O
 | S of nat
 
-(** val length : 'a1 list -> nat **)
+(** val fst : ('a1 * 'a2) -> 'a1 **)
 
-let rec length = function
-| [] -> O
-| _ :: l' -> S (length l')
+let fst = function
+| (x, _) -> x
+
+(** val snd : ('a1 * 'a2) -> 'a2 **)
+
+let snd = function
+| (_, y) -> y
 
 (** val app : 'a1 list -> 'a1 list -> 'a1 list **)
 
@@ -53,6 +57,20 @@ type z =
 | Zpos of positive
 | Zneg of positive
 
+(** val gmax : ('a1 -> 'a1 -> comparison) -> 'a1 -> 'a1 -> 'a1 **)
+
+let gmax cmp x y =
+  match cmp x y with
+  | Lt -> y
+  | _ -> x
+
+(** val gmin : ('a1 -> 'a1 -> comparison) -> 'a1 -> 'a1 -> 'a1 **)
+
+let gmin cmp x y =
+  match cmp x y with
+  | Gt -> y
+  | _ -> x
+
 module Nat =
  struct
   (** val eqb : nat -> nat -> bool **)
@@ -69,6 +87,14 @@ module Nat =
 
 module Pos =
  struct
+  type mask =
+  | IsNul
+  | IsPos of positive
+  | IsNeg
+ end
+
+module Coq_Pos =
+ struct
   (** val succ : positive -> positive **)
 
   let rec succ = function
@@ -82,17 +108,17 @@ module Pos =
     match x with
     | XI p ->
       (match y with
-       | XI q -> XO (add_carry p q)
-       | XO q -> XI (add p q)
+       | XI q0 -> XO (add_carry p q0)
+       | XO q0 -> XI (add p q0)
        | XH -> XO (succ p))
     | XO p ->
       (match y with
-       | XI q -> XI (add p q)
-       | XO q -> XO (add p q)
+       | XI q0 -> XI (add p q0)
+       | XO q0 -> XO (add p q0)
        | XH -> XI p)
     | XH -> (match y with
-             | XI q -> XO (succ q)
-             | XO q -> XI q
+             | XI q0 -> XO (succ q0)
+             | XO q0 -> XI q0
              | XH -> XO XH)
 
   (** val add_carry : positive -> positive -> positive **)
@@ -101,18 +127,18 @@ module Pos =
     match x with
     | XI p ->
       (match y with
-       | XI q -> XI (add_carry p q)
-       | XO q -> XO (add_carry p q)
+       | XI q0 -> XI (add_carry p q0)
+       | XO q0 -> XO (add_carry p q0)
        | XH -> XI (succ p))
     | XO p ->
       (match y with
-       | XI q -> XO (add_carry p q)
-       | XO q -> XI (add p q)
+       | XI q0 -> XO (add_carry p q0)
+       | XO q0 -> XI (add p q0)
        | XH -> XO (succ p))
     | XH ->
       (match y with
-       | XI q -> XI (succ q)
-       | XO q -> XO (succ q)
+       | XI q0 -> XI (succ q0)
+       | XO q0 -> XO (succ q0)
        | XH -> XI XH)
 
   (** val pred_double : positive -> positive **)
@@ -122,6 +148,72 @@ module Pos =
   | XO p -> XI (pred_double p)
   | XH -> XH
 
+  type mask = Pos.mask =
+  | IsNul
+  | IsPos of positive
+  | IsNeg
+
+  (** val succ_double_mask : mask -> mask **)
+
+  let succ_double_mask = function
+  | IsNul -> IsPos XH
+  | IsPos p -> IsPos (XI p)
+  | IsNeg -> IsNeg
+
+  (** val double_mask : mask -> mask **)
+
+  let double_mask = function
+  | IsPos p -> IsPos (XO p)
+  | x0 -> x0
+
+  (** val double_pred_mask : positive -> mask **)
+
+  let double_pred_mask = function
+  | XI p -> IsPos (XO (XO p))
+  | XO p -> IsPos (XO (pred_double p))
+  | XH -> IsNul
+
+  (** val sub_mask : positive -> positive -> mask **)
+
+  let rec sub_mask x y =
+    match x with
+    | XI p ->
+      (match y with
+       | XI q0 -> double_mask (sub_mask p q0)
+       | XO q0 -> succ_double_mask (sub_mask p q0)
+       | XH -> IsPos (XO p))
+    | XO p ->
+      (match y with
+       | XI q0 -> succ_double_mask (sub_mask_carry p q0)
+       | XO q0 -> double_mask (sub_mask p q0)
+       | XH -> IsPos (pred_double p))
+    | XH -> (match y with
+             | XH -> IsNul
+             | _ -> IsNeg)
+
+  (** val sub_mask_carry : positive -> positive -> mask **)
+
+  and sub_mask_carry x y =
+    match x with
+    | XI p ->
+      (match y with
+       | XI q0 -> succ_double_mask (sub_mask_carry p q0)
+       | XO q0 -> double_mask (sub_mask p q0)
+       | XH -> IsPos (pred_double p))
+    | XO p ->
+      (match y with
+       | XI q0 -> double_mask (sub_mask_carry p q0)
+       | XO q0 -> succ_double_mask (sub_mask_carry p q0)
+       | XH -> double_pred_mask p)
+    | XH -> IsNeg
+
+  (** val sub : positive -> positive -> positive **)
+
+  let sub x y =
+    match sub_mask x y with
+    | IsPos z0 -> z0
+    | _ -> XH
+
   (** val mul : positive -> positive -> positive **)
 
   let rec mul x y =
@@ -130,19 +222,12 @@ module Pos =
     | XO p -> XO (mul p y)
     | XH -> y
 
-  (** val iter : ('a1 -> 'a1) -> 'a1 -> positive -> 'a1 **)
+  (** val size_nat : positive -> nat **)
 
-  let rec iter f x = function
-  | XI n' -> f (iter f (iter f x n') n')
-  | XO n' -> iter f (iter f x n') n'
-  | XH -> f x
-
-  (** val size : positive -> positive **)
-
-  let rec size = function
-  | XI p0 -> succ (size p0)
-  | XO p0 -> succ (size p0)
-  | XH -> XH
+  let rec size_nat = function
+  | XI p0 -> S (size_nat p0)
+  | XO p0 -> S (size_nat p0)
+  | XH -> S O
 
   (** val compare_cont : comparison -> positive -> positive -> comparison **)
 
@@ -150,13 +235,13 @@ module Pos =
     match x with
     | XI p ->
       (match y with
-       | XI q -> compare_cont r p q
-       | XO q -> compare_cont Gt p q
+       | XI q0 -> compare_cont r p q0
+       | XO q0 -> compare_cont Gt p q0
        | XH -> Gt)
     | XO p ->
       (match y with
-       | XI q -> compare_cont Lt p q
-       | XO q -> compare_cont r p q
+       | XI q0 -> compare_cont Lt p q0
+       | XO q0 -> compare_cont r p q0
        | XH -> Gt)
     | XH -> (match y with
              | XH -> r
@@ -167,38 +252,42 @@ module Pos =
   let compare =
     compare_cont Eq
 
-  (** val eqb : positive -> positive -> bool **)
+  (** val ggcdn :
+      nat -> positive -> positive -> positive * (positive * positive) **)
 
-  let rec eqb p q =
-    match p with
-    | XI p0 -> (match q with
-                | XI q0 -> eqb p0 q0
-                | _ -> false)
-    | XO p0 -> (match q with
-                | XO q0 -> eqb p0 q0
-                | _ -> false)
-    | XH -> (match q with
-             | XH -> true
-             | _ -> false)
+  let rec ggcdn n a b =
+    match n with
+    | O -> (XH, (a, b))
+    | S n0 ->
+      (match a with
+       | XI a' ->
+         (match b with
+          | XI b' ->
+            (match compare a' b' with
+             | Eq -> (a, (XH, XH))
+             | Lt ->
+               let (g, p) = ggcdn n0 (sub b' a') a in
+               let (ba, aa) = p in (g, (aa, (add aa (XO ba))))
+             | Gt ->
+               let (g, p) = ggcdn n0 (sub a' b') b in
+               let (ab, bb) = p in (g, ((add bb (XO ab)), bb)))
+          | XO b0 ->
+            let (g, p) = ggcdn n0 a b0 in
+            let (aa, bb) = p in (g, (aa, (XO bb)))
+          | XH -> (XH, (a, XH)))
+       | XO a0 ->
+         (match b with
+          | XI _ ->
+            let (g, p) = ggcdn n0 a0 b in
+            let (aa, bb) = p in (g, ((XO aa), bb))
+          | XO b0 -> let (g, p) = ggcdn n0 a0 b0 in ((XO g), p)
+          | XH -> (XH, (a, XH)))
+       | XH -> (XH, (XH, b)))
 
-  (** val iter_op : ('a1 -> 'a1 -> 'a1) -> positive -> 'a1 -> 'a1 **)
+  (** val ggcd : positive -> positive -> positive * (positive * positive) **)
 
-  let rec iter_op op p a =
-    match p with
-    | XI p0 -> op a (iter_op op p0 (op a a))
-    | XO p0 -> iter_op op p0 (op a a)
-    | XH -> a
-
-  (** val to_nat : positive -> nat **)
-
-  let to_nat x =
-    iter_op Coq__1.add x (S O)
-
-  (** val of_succ_nat : nat -> positive **)
-
-  let rec of_succ_nat = function
-  | O -> XH
-  | S x -> succ (of_succ_nat x)
+  let ggcd a b =
+    ggcdn (Coq__1.add (size_nat a) (size_nat b)) a b
  end
 
 module Z =
@@ -215,13 +304,13 @@ module Z =
   let succ_double = function
   | Z0 -> Zpos XH
   | Zpos p -> Zpos (XI p)
-  | Zneg p -> Zneg (Pos.pred_double p)
+  | Zneg p -> Zneg (Coq_Pos.pred_double p)
 
   (** val pred_double : z -> z **)
 
   let pred_double = function
   | Z0 -> Zneg XH
-  | Zpos p -> Zpos (Pos.pred_double p)
+  | Zpos p -> Zpos (Coq_Pos.pred_double p)
   | Zneg p -> Zneg (XI p)
 
   (** val pos_sub : positive -> positive -> z **)
@@ -230,18 +319,18 @@ module Z =
     match x with
     | XI p ->
       (match y with
-       | XI q -> double (pos_sub p q)
-       | XO q -> succ_double (pos_sub p q)
+       | XI q0 -> double (pos_sub p q0)
+       | XO q0 -> succ_double (pos_sub p q0)
        | XH -> Zpos (XO p))
     | XO p ->
       (match y with
-       | XI q -> pred_double (pos_sub p q)
-       | XO q -> double (pos_sub p q)
-       | XH -> Zpos (Pos.pred_double p))
+       | XI q0 -> pred_double (pos_sub p q0)
+       | XO q0 -> double (pos_sub p q0)
+       | XH -> Zpos (Coq_Pos.pred_double p))
     | XH ->
       (match y with
-       | XI q -> Zneg (XO q)
-       | XO q -> Zneg (Pos.pred_double q)
+       | XI q0 -> Zneg (XO q0)
+       | XO q0 -> Zneg (Coq_Pos.pred_double q0)
        | XH -> Z0)
 
   (** val add : z -> z -> z **)
@@ -252,13 +341,13 @@ module Z =
     | Zpos x' ->
       (match y with
        | Z0 -> x
-       | Zpos y' -> Zpos (Pos.add x' y')
+       | Zpos y' -> Zpos (Coq_Pos.add x' y')
        | Zneg y' -> pos_sub x' y')
     | Zneg x' ->
       (match y with
        | Z0 -> x
        | Zpos y' -> pos_sub y' x'
-       | Zneg y' -> Zneg (Pos.add x' y'))
+       | Zneg y' -> Zneg (Coq_Pos.add x' y'))
 
   (** val opp : z -> z **)
 
@@ -280,25 +369,13 @@ module Z =
     | Zpos x' ->
       (match y with
        | Z0 -> Z0
-       | Zpos y' -> Zpos (Pos.mul x' y')
-       | Zneg y' -> Zneg (Pos.mul x' y'))
+       | Zpos y' -> Zpos (Coq_Pos.mul x' y')
+       | Zneg y' -> Zneg (Coq_Pos.mul x' y'))
     | Zneg x' ->
       (match y with
        | Z0 -> Z0
-       | Zpos y' -> Zneg (Pos.mul x' y')
-       | Zneg y' -> Zpos (Pos.mul x' y'))
-
-  (** val pow_pos : z -> positive -> z **)
-
-  let pow_pos z0 =
-    Pos.iter (mul z0) (Zpos XH)
-
-  (** val pow : z -> z -> z **)
-
-  let pow x = function
-  | Z0 -> Zpos XH
-  | Zpos p -> pow_pos x p
-  | Zneg _ -> Z0
+       | Zpos y' -> Zneg (Coq_Pos.mul x' y')
+       | Zneg y' -> Zpos (Coq_Pos.mul x' y'))
 
   (** val compare : z -> z -> comparison **)
 
@@ -309,12 +386,19 @@ module Z =
              | Zpos _ -> Lt
              | Zneg _ -> Gt)
     | Zpos x' -> (match y with
-                  | Zpos y' -> Pos.compare x' y'
+                  | Zpos y' -> Coq_Pos.compare x' y'
                   | _ -> Gt)
     | Zneg x' ->
       (match y with
-       | Zneg y' -> compOpp (Pos.compare x' y')
+       | Zneg y' -> compOpp (Coq_Pos.compare x' y')
        | _ -> Lt)
+
+  (** val sgn : z -> z **)
+
+  let sgn = function
+  | Z0 -> Z0
+  | Zpos _ -> Zpos XH
+  | Zneg _ -> Zneg XH
 
   (** val leb : z -> z -> bool **)
 
@@ -330,61 +414,34 @@ module Z =
     | Lt -> true
     | _ -> false
 
-  (** val eqb : z -> z -> bool **)
-
-  let eqb x y =
-    match x with
-    | Z0 -> (match y with
-             | Z0 -> true
-             | _ -> false)
-    | Zpos p -> (match y with
-                 | Zpos q -> Pos.eqb p q
-                 | _ -> false)
-    | Zneg p -> (match y with
-                 | Zneg q -> Pos.eqb p q
-                 | _ -> false)
-
-  (** val max : z -> z -> z **)
-
-  let max n m =
-    match compare n m with
-    | Lt -> m
-    | _ -> n
-
   (** val abs : z -> z **)
 
   let abs = function
   | Zneg p -> Zpos p
   | x -> x
 
-  (** val to_nat : z -> nat **)
+  (** val to_pos : z -> positive **)
 
-  let to_nat = function
-  | Zpos p -> Pos.to_nat p
-  | _ -> O
-
-  (** val of_nat : nat -> z **)
-
-  let of_nat = function
-  | O -> Z0
-  | S n0 -> Zpos (Pos.of_succ_nat n0)
+  let to_pos = function
+  | Zpos p -> p
+  | _ -> XH
 
   (** val pos_div_eucl : positive -> z -> z * z **)
 
   let rec pos_div_eucl a b =
     match a with
     | XI a' ->
-      let (q, r) = pos_div_eucl a' b in
+      let (q0, r) = pos_div_eucl a' b in
       let r' = add (mul (Zpos (XO XH)) r) (Zpos XH) in
       if ltb r' b
-      then ((mul (Zpos (XO XH)) q), r')
-      else ((add (mul (Zpos (XO XH)) q) (Zpos XH)), (sub r' b))
+      then ((mul (Zpos (XO XH)) q0), r')
+      else ((add (mul (Zpos (XO XH)) q0) (Zpos XH)), (sub r' b))
     | XO a' ->
-      let (q, r) = pos_div_eucl a' b in
+      let (q0, r) = pos_div_eucl a' b in
       let r' = mul (Zpos (XO XH)) r in
       if ltb r' b
-      then ((mul (Zpos (XO XH)) q), r')
-      else ((add (mul (Zpos (XO XH)) q) (Zpos XH)), (sub r' b))
+      then ((mul (Zpos (XO XH)) q0), r')
+      else ((add (mul (Zpos (XO XH)) q0) (Zpos XH)), (sub r' b))
     | XH -> if leb (Zpos (XO XH)) b then (Z0, (Zpos XH)) else ((Zpos XH), Z0)
 
   (** val div_eucl : z -> z -> z * z **)
@@ -397,50 +454,62 @@ module Z =
        | Z0 -> (Z0, a)
        | Zpos _ -> pos_div_eucl a' b
        | Zneg b' ->
-         let (q, r) = pos_div_eucl a' (Zpos b') in
+         let (q0, r) = pos_div_eucl a' (Zpos b') in
          (match r with
-          | Z0 -> ((opp q), Z0)
-          | _ -> ((opp (add q (Zpos XH))), (add b r))))
+          | Z0 -> ((opp q0), Z0)
+          | _ -> ((opp (add q0 (Zpos XH))), (add b r))))
     | Zneg a' ->
       (match b with
        | Z0 -> (Z0, a)
        | Zpos _ ->
-         let (q, r) = pos_div_eucl a' b in
+         let (q0, r) = pos_div_eucl a' b in
          (match r with
-          | Z0 -> ((opp q), Z0)
-          | _ -> ((opp (add q (Zpos XH))), (sub b r)))
-       | Zneg b' -> let (q, r) = pos_div_eucl a' (Zpos b') in (q, (opp r)))
+          | Z0 -> ((opp q0), Z0)
+          | _ -> ((opp (add q0 (Zpos XH))), (sub b r)))
+       | Zneg b' -> let (q0, r) = pos_div_eucl a' (Zpos b') in (q0, (opp r)))
 
   (** val div : z -> z -> z **)
 
   let div a b =
-    let (q, _) = div_eucl a b in q
+    let (q0, _) = div_eucl a b in q0
 
-  (** val modulo : z -> z -> z **)
+  (** val ggcd : z -> z -> z * (z * z) **)
 
-  let modulo a b =
-    let (_, r) = div_eucl a b in r
-
-  (** val log2 : z -> z **)
-
-  let log2 = function
-  | Zpos p0 ->
-    (match p0 with
-     | XI p -> Zpos (Pos.size p)
-     | XO p -> Zpos (Pos.size p)
-     | XH -> Z0)
-  | _ -> Z0
+  let ggcd a b =
+    match a with
+    | Z0 -> ((abs b), (Z0, (sgn b)))
+    | Zpos a0 ->
+      (match b with
+       | Z0 -> ((abs a), ((sgn a), Z0))
+       | Zpos b0 ->
+         let (g, p) = Coq_Pos.ggcd a0 b0 in
+         let (aa, bb) = p in ((Zpos g), ((Zpos aa), (Zpos bb)))
+       | Zneg b0 ->
+         let (g, p) = Coq_Pos.ggcd a0 b0 in
+         let (aa, bb) = p in ((Zpos g), ((Zpos aa), (Zneg bb))))
+    | Zneg a0 ->
+      (match b with
+       | Z0 -> ((abs a), ((sgn a), Z0))
+       | Zpos b0 ->
+         let (g, p) = Coq_Pos.ggcd a0 b0 in
+         let (aa, bb) = p in ((Zpos g), ((Zneg aa), (Zpos bb)))
+       | Zneg b0 ->
+         let (g, p) = Coq_Pos.ggcd a0 b0 in
+         let (aa, bb) = p in ((Zpos g), ((Zneg aa), (Zneg bb))))
  end
 
-(** val nth_error : 'a1 list -> nat -> 'a1 option **)
+(** val zeq_bool : z -> z -> bool **)
 
-let rec nth_error l = function
-| O -> (match l with
-        | [] -> None
-        | x :: _ -> Some x)
-| S n0 -> (match l with
-           | [] -> None
-           | _ :: l0 -> nth_error l0 n0)
+let zeq_bool x y =
+  match Z.compare x y with
+  | Eq -> true
+  | _ -> false
+
+(** val map : ('a1 -> 'a2) -> 'a1 list -> 'a2 list **)
+
+let rec map f = function
+| [] -> []
+| a :: t -> (f a) :: (map f t)
 
 (** val fold_left : ('a1 -> 'a2 -> 'a1) -> 'a2 list -> 'a1 -> 'a1 **)
 
@@ -448,6 +517,12 @@ let rec fold_left f l a0 =
   match l with
   | [] -> a0
   | b :: t -> fold_left f t (f a0 b)
+
+(** val fold_right : ('a2 -> 'a1 -> 'a1) -> 'a1 -> 'a2 list -> 'a1 **)
+
+let rec fold_right f a0 = function
+| [] -> a0
+| b :: t -> f b (fold_right f a0 t)
 
 (** val existsb : ('a1 -> bool) -> 'a1 list -> bool **)
 
@@ -461,476 +536,453 @@ let rec forallb f = function
 | [] -> true
 | a :: l0 -> (&&) (f a) (forallb f l0)
 
-(** val combine : 'a1 list -> 'a2 list -> ('a1 * 'a2) list **)
+(** val filter : ('a1 -> bool) -> 'a1 list -> 'a1 list **)
 
-let rec combine l l' =
-  match l with
-  | [] -> []
-  | x :: tl ->
-    (match l' with
-     | [] -> []
-     | y :: tl' -> (x, y) :: (combine tl tl'))
+let rec filter f = function
+| [] -> []
+| x :: l0 -> if f x then x :: (filter f l0) else filter f l0
 
-type byte = z
+type q = { qnum : z; qden : positive }
 
-type bytes = byte list
+(** val inject_Z : z -> q **)
 
-type err =
-| ETrunc
-| EBadIndex
-| EBadHeader
-| EUnsupported
-| EFuel
+let inject_Z x =
+  { qnum = x; qden = XH }
 
-type 'a res =
-| OK of 'a
-| Err of err
+(** val qcompare : q -> q -> comparison **)
 
-(** val bind : 'a1 res -> ('a1 -> 'a2 res) -> 'a2 res **)
+let qcompare p q0 =
+  Z.compare (Z.mul p.qnum (Zpos q0.qden)) (Z.mul q0.qnum (Zpos p.qden))
 
-let bind r f =
+(** val qeq_bool : q -> q -> bool **)
+
+let qeq_bool x y =
+  zeq_bool (Z.mul x.qnum (Zpos y.qden)) (Z.mul y.qnum (Zpos x.qden))
+
+(** val qle_bool : q -> q -> bool **)
+
+let qle_bool x y =
+  Z.leb (Z.mul x.qnum (Zpos y.qden)) (Z.mul y.qnum (Zpos x.qden))
+
+(** val qplus : q -> q -> q **)
+
+let qplus x y =
+  { qnum = (Z.add (Z.mul x.qnum (Zpos y.qden)) (Z.mul y.qnum (Zpos x.qden)));
+    qden = (Coq_Pos.mul x.qden y.qden) }
+
+(** val qmult : q -> q -> q **)
+
+let qmult x y =
+  { qnum = (Z.mul x.qnum y.qnum); qden = (Coq_Pos.mul x.qden y.qden) }
+
+(** val qopp : q -> q **)
+
+let qopp x =
+  { qnum = (Z.opp x.qnum); qden = x.qden }
+
+(** val qminus : q -> q -> q **)
+
+let qminus x y =
+  qplus x (qopp y)
+
+(** val qinv : q -> q **)
+
+let qinv x =
+  match x.qnum with
+  | Z0 -> { qnum = Z0; qden = XH }
+  | Zpos p -> { qnum = (Zpos x.qden); qden = p }
+  | Zneg p -> { qnum = (Zneg x.qden); qden = p }
+
+(** val qdiv : q -> q -> q **)
+
+let qdiv x y =
+  qmult x (qinv y)
+
+(** val qred : q -> q **)
+
+let qred q0 =
+  let { qnum = q1; qden = q2 } = q0 in
+  let (r3, r4) = snd (Z.ggcd q1 (Zpos q2)) in
+  { qnum = r3; qden = (Z.to_pos r4) }
+
+type vec = { vx : q; vy : q; vz : q }
+
+(** val vsub : vec -> vec -> vec **)
+
+let vsub a b =
+  { vx = (qminus a.vx b.vx); vy = (qminus a.vy b.vy); vz =
+    (qminus a.vz b.vz) }
+
+(** val vscale : q -> vec -> vec **)
+
+let vscale k a =
+  { vx = (qmult k a.vx); vy = (qmult k a.vy); vz = (qmult k a.vz) }
+
+(** val dot : vec -> vec -> q **)
+
+let dot a b =
+  qplus (qplus (qmult a.vx b.vx) (qmult a.vy b.vy)) (qmult a.vz b.vz)
+
+type mat = { r0 : vec; r1 : vec; r2 : vec }
+
+(** val mapply : mat -> vec -> vec **)
+
+let mapply m v =
+  { vx = (dot m.r0 v); vy = (dot m.r1 v); vz = (dot m.r2 v) }
+
+(** val mT : mat -> mat **)
+
+let mT m =
+  { r0 = { vx = m.r0.vx; vy = m.r1.vx; vz = m.r2.vx }; r1 = { vx = m.r0.vy;
+    vy = m.r1.vy; vz = m.r2.vy }; r2 = { vx = m.r0.vz; vy = m.r1.vz; vz =
+    m.r2.vz } }
+
+(** val qfloor : q -> z **)
+
+let qfloor x =
+  let { qnum = n; qden = d } = x in Z.div n (Zpos d)
+
+(** val qabs : q -> q **)
+
+let qabs x =
+  let { qnum = n; qden = d } = x in { qnum = (Z.abs n); qden = d }
+
+(** val qmax : q -> q -> q **)
+
+let qmax =
+  gmax qcompare
+
+(** val qmin : q -> q -> q **)
+
+let qmin =
+  gmin qcompare
+
+(** val qltb : q -> q -> bool **)
+
+let qltb a b =
+  negb (qle_bool b a)
+
+(** val qmod : q -> q -> q **)
+
+let qmod x m =
+  qminus x (qmult m (inject_Z (qfloor (qdiv x m))))
+
+(** val clip : q -> q -> q -> q **)
+
+let clip x lo hi =
+  qmin (qmax x lo) hi
+
+(** val in_window : q -> q -> bool **)
+
+let in_window a half =
+  (&&) (qle_bool (qopp half) a) (qle_bool a half)
+
+(** val qmin_list : q -> q list -> q **)
+
+let qmin_list x l =
+  fold_right qmin x l
+
+(** val qmax_list : q -> q list -> q **)
+
+let qmax_list x l =
+  fold_right qmax x l
+
+type xform =
+| Old
+| Fixed
+
+(** val local_vec : xform -> mat option -> vec -> vec -> vec **)
+
+let local_vec x r c p =
   match r with
-  | OK a -> f a
-  | Err e -> Err e
+  | Some m ->
+    (match x with
+     | Old -> vsub (mapply (mT m) p) c
+     | Fixed -> mapply (mT m) (vsub p c))
+  | None -> vsub p c
 
-(** val take_exact : nat -> bytes -> (bytes * bytes) res **)
+(** val world_ray : mat option -> vec -> vec **)
 
-let rec take_exact n s =
-  match n with
-  | O -> OK ([], s)
-  | S n' ->
-    (match s with
-     | [] -> Err ETrunc
-     | b :: s' ->
-       bind (take_exact n' s') (fun p -> let (h, t) = p in OK ((b :: h), t)))
+let world_ray r ray =
+  match r with
+  | Some m -> mapply m ray
+  | None -> ray
 
-(** val le_encode : nat -> z -> bytes **)
+(** val wrap_az : q -> q -> q **)
 
-let rec le_encode n v =
-  match n with
-  | O -> []
-  | S n' ->
-    (Z.modulo v (Zpos (XO (XO (XO (XO (XO (XO (XO (XO XH)))))))))) :: 
-      (le_encode n'
-        (Z.div v (Zpos (XO (XO (XO (XO (XO (XO (XO (XO XH)))))))))))
+let wrap_az pI a =
+  qminus
+    (qmod
+      (qplus (qminus a (qdiv pI { qnum = (Zpos (XO XH)); qden = XH })) pI)
+      (qmult { qnum = (Zpos (XO XH)); qden = XH } pI)) pI
 
-(** val le_decode : bytes -> z **)
+(** val near_occluders : ('a1 -> q) -> q -> 'a1 list -> 'a1 list **)
 
-let rec le_decode = function
-| [] -> Z0
-| b :: t ->
-  Z.add b
-    (Z.mul (Zpos (XO (XO (XO (XO (XO (XO (XO (XO XH))))))))) (le_decode t))
+let near_occluders odist d occs =
+  filter (fun o -> qle_bool (odist o) d) occs
 
-(** val pow256 : nat -> z **)
+(** val point_ray : (vec -> q) -> xform -> mat option -> vec -> vec -> vec **)
 
-let pow256 n =
-  Z.pow (Zpos (XO XH)) (Z.mul (Zpos (XO (XO (XO XH)))) (Z.of_nat n))
+let point_ray norm x r c p =
+  let tv = local_vec x r c p in vscale (qinv (norm tv)) tv
 
-(** val to_signed : nat -> z -> bytes **)
+(** val point_az :
+    q -> (q -> q -> q) -> (vec -> q) -> xform -> mat option -> vec -> vec -> q **)
 
-let to_signed n v =
-  le_encode n (Z.modulo v (pow256 n))
+let point_az pI atan2 norm x r c p =
+  let ray = point_ray norm x r c p in wrap_az pI (atan2 ray.vy ray.vx)
 
-(** val from_signed : bytes -> z **)
+(** val point_alt :
+    (q -> q) -> (vec -> q) -> xform -> mat option -> vec -> vec -> q **)
 
-let from_signed bs =
-  let u = le_decode bs in
-  let n = length bs in
-  if Nat.eqb n O
-  then Z0
-  else if Z.ltb u (Z.div (pow256 n) (Zpos (XO XH)))
-       then u
-       else Z.sub u (pow256 n)
+let point_alt asin norm x r c p =
+  asin (point_ray norm x r c p).vz
 
-(** val bit_length : z -> z **)
+(** val ray_unblocked :
+    ('a1 -> vec -> q list) -> q -> vec -> 'a1 list -> bool **)
 
-let bit_length z0 =
-  let a = Z.abs z0 in if Z.eqb a Z0 then Z0 else Z.add (Z.log2 a) (Zpos XH)
+let ray_unblocked hit td wray occs =
+  forallb (fun o -> forallb (fun hd -> negb (qle_bool hd td)) (hit o wray))
+    occs
 
-(** val write_int : z -> bytes option **)
+(** val point_visible :
+    q -> (q -> q -> q) -> (q -> q) -> (vec -> q) -> ('a1 -> q) -> ('a1 -> vec
+    -> q list) -> xform -> vec -> mat option -> q -> q -> q -> vec -> 'a1
+    list -> bool **)
 
-let write_int z0 =
-  if (&&) (Z.leb Z0 z0)
-       (Z.leb z0 (Zpos (XO (XO (XI (XI (XI (XI (XI XH)))))))))
-  then Some (z0 :: [])
-  else if (&&)
-            (Z.leb (Zneg (XO (XO (XO (XO (XO (XO (XO (XO (XO (XO (XO (XO (XO
-              (XO (XO XH)))))))))))))))) z0)
-            (Z.leb z0 (Zpos (XI (XI (XI (XI (XI (XI (XI (XI (XI (XI (XI (XI
-              (XI (XI XH))))))))))))))))
-       then Some ((Zpos (XI (XO (XI (XI (XI (XI (XI
-              XH)))))))) :: (to_signed (S (S O)) z0))
-       else if (&&)
-                 (Z.leb (Zneg (XO (XO (XO (XO (XO (XO (XO (XO (XO (XO (XO (XO
-                   (XO (XO (XO (XO (XO (XO (XO (XO (XO (XO (XO (XO (XO (XO
-                   (XO (XO (XO (XO (XO XH)))))))))))))))))))))))))))))))) z0)
-                 (Z.leb z0 (Zpos (XI (XI (XI (XI (XI (XI (XI (XI (XI (XI (XI
-                   (XI (XI (XI (XI (XI (XI (XI (XI (XI (XI (XI (XI (XI (XI
-                   (XI (XI (XI (XI (XI XH))))))))))))))))))))))))))))))))
-            then Some ((Zpos (XO (XI (XI (XI (XI (XI (XI
-                   XH)))))))) :: (to_signed (S (S (S (S O)))) z0))
-            else let len =
-                   Z.max (Zpos XH)
-                     (Z.div
-                       (Z.add (Z.add (bit_length z0) (Zpos XH)) (Zpos (XI (XI
-                         XH)))) (Zpos (XO (XO (XO XH)))))
+let point_visible pI atan2 asin norm odist hit x c r d h v p occs =
+  let td = norm (vsub p c) in
+  if negb (qle_bool td d)
+  then false
+  else let az = point_az pI atan2 norm x r c p in
+       let alt = point_alt asin norm x r c p in
+       if (||)
+            (negb
+              (in_window az (qdiv h { qnum = (Zpos (XO XH)); qden = XH })))
+            (negb
+              (in_window alt (qdiv v { qnum = (Zpos (XO XH)); qden = XH })))
+       then false
+       else ray_unblocked hit td (world_ray r (point_ray norm x r c p))
+              (near_occluders odist d occs)
+
+(** val point_margin :
+    q -> (q -> q -> q) -> (q -> q) -> (vec -> q) -> xform -> vec -> mat
+    option -> q -> q -> q -> vec -> q **)
+
+let point_margin pI atan2 asin norm x c r d h v p =
+  qmin (qminus d (norm (vsub p c)))
+    (qmin
+      (qminus (qdiv h { qnum = (Zpos (XO XH)); qden = XH })
+        (qabs (point_az pI atan2 norm x r c p)))
+      (qminus (qdiv v { qnum = (Zpos (XO XH)); qden = XH })
+        (qabs (point_alt asin norm x r c p))))
+
+type window = { h_lo : q; h_hi : q; v_lo : q; v_hi : q }
+
+(** val to_back : q -> q -> q **)
+
+let to_back pI a =
+  if qle_bool { qnum = Z0; qden = XH } a then qminus a pI else qplus a pI
+
+(** val view_windows :
+    q -> q -> q -> bool -> bool -> (q * q) -> (q * q) list -> window list
+    option **)
+
+let view_windows pI h v ahead behind a0 angs =
+  let azs = map fst angs in
+  let alts = map snd angs in
+  let vmin = qmin_list (snd a0) alts in
+  let vmax = qmax_list (snd a0) alts in
+  if (||) (qltb (qdiv v { qnum = (Zpos (XO XH)); qden = XH }) vmin)
+       (qltb vmax (qopp (qdiv v { qnum = (Zpos (XO XH)); qden = XH })))
+  then None
+  else if (&&) ahead behind
+       then Some ({ h_lo =
+              (qopp (qdiv h { qnum = (Zpos (XO XH)); qden = XH })); h_hi =
+              (qdiv h { qnum = (Zpos (XO XH)); qden = XH }); v_lo =
+              (qopp (qdiv v { qnum = (Zpos (XO XH)); qden = XH })); v_hi =
+              (qdiv v { qnum = (Zpos (XO XH)); qden = XH }) } :: [])
+       else if behind
+            then let smin =
+                   qmin_list (to_back pI (fst a0)) (map (to_back pI) azs)
                  in
-                 if Z.leb (Zpos (XO (XO (XO (XO (XO (XO (XO (XO XH)))))))))
-                      len
+                 let smax =
+                   qmax_list (to_back pI (fst a0)) (map (to_back pI) azs)
+                 in
+                 let ov_lo =
+                   clip vmin
+                     (qopp (qdiv v { qnum = (Zpos (XO XH)); qden = XH }))
+                     (qdiv v { qnum = (Zpos (XO XH)); qden = XH })
+                 in
+                 let ov_hi =
+                   clip vmax
+                     (qopp (qdiv v { qnum = (Zpos (XO XH)); qden = XH }))
+                     (qdiv v { qnum = (Zpos (XO XH)); qden = XH })
+                 in
+                 let w1 =
+                   if qltb pI
+                        (qplus
+                          (qabs
+                            (qopp
+                              (qdiv h { qnum = (Zpos (XO XH)); qden = XH })))
+                          (qabs smax))
+                   then { h_lo =
+                          (qopp (qdiv h { qnum = (Zpos (XO XH)); qden = XH }));
+                          h_hi = (qplus (qopp pI) smax); v_lo = ov_lo; v_hi =
+                          ov_hi } :: []
+                   else []
+                 in
+                 let w2 =
+                   if qltb pI
+                        (qplus
+                          (qabs (qdiv h { qnum = (Zpos (XO XH)); qden = XH }))
+                          (qabs smin))
+                   then { h_lo = (qplus pI smin); h_hi =
+                          (qdiv h { qnum = (Zpos (XO XH)); qden = XH });
+                          v_lo = ov_lo; v_hi = ov_hi } :: []
+                   else []
+                 in
+                 (match app w1 w2 with
+                  | [] -> None
+                  | w :: l -> Some (w :: l))
+            else let hmin = qmin_list (fst a0) azs in
+                 let hmax = qmax_list (fst a0) azs in
+                 if (||)
+                      (qltb hmax
+                        (qopp (qdiv h { qnum = (Zpos (XO XH)); qden = XH })))
+                      (qltb (qdiv h { qnum = (Zpos (XO XH)); qden = XH })
+                        hmin)
                  then None
-                 else Some ((Zpos (XI (XI (XI (XI (XI (XI (XI
-                        XH)))))))) :: (len :: (to_signed (Z.to_nat len) z0)))
+                 else Some ({ h_lo =
+                        (clip hmin
+                          (qopp (qdiv h { qnum = (Zpos (XO XH)); qden = XH }))
+                          (qdiv h { qnum = (Zpos (XO XH)); qden = XH }));
+                        h_hi =
+                        (clip hmax
+                          (qopp (qdiv h { qnum = (Zpos (XO XH)); qden = XH }))
+                          (qdiv h { qnum = (Zpos (XO XH)); qden = XH }));
+                        v_lo =
+                        (clip vmin
+                          (qopp (qdiv v { qnum = (Zpos (XO XH)); qden = XH }))
+                          (qdiv v { qnum = (Zpos (XO XH)); qden = XH }));
+                        v_hi =
+                        (clip vmax
+                          (qopp (qdiv v { qnum = (Zpos (XO XH)); qden = XH }))
+                          (qdiv v { qnum = (Zpos (XO XH)); qden = XH })) } :: [])
 
-(** val read_int : bytes -> (z * bytes) res **)
+(** val edge_cross : (vec * vec) -> q option **)
 
-let read_int = function
-| [] -> Err ETrunc
-| first :: s1 ->
-  if Z.leb first (Zpos (XO (XO (XI (XI (XI (XI (XI XH))))))))
-  then OK (first, s1)
-  else if Z.eqb first (Zpos (XI (XO (XI (XI (XI (XI (XI XH))))))))
-       then bind (take_exact (S (S O)) s1) (fun p0 ->
-              let (p, r) = p0 in OK ((from_signed p), r))
-       else if Z.eqb first (Zpos (XO (XI (XI (XI (XI (XI (XI XH))))))))
-            then bind (take_exact (S (S (S (S O)))) s1) (fun p0 ->
-                   let (p, r) = p0 in OK ((from_signed p), r))
-            else (match s1 with
-                  | [] -> Err ETrunc
-                  | len :: s2 ->
-                    bind (take_exact (Z.to_nat len) s2) (fun p0 ->
-                      let (p, r) = p0 in OK ((from_signed p), r)))
+let edge_cross = function
+| (a, b) ->
+  if qeq_bool b.vx { qnum = Z0; qden = XH }
+  then None
+  else if qltb (qdiv a.vx b.vx) { qnum = Z0; qden = XH }
+       then let t = qdiv (qopp a.vx) (qminus b.vx a.vx) in
+            Some (qplus (qmult t (qminus b.vy a.vy)) a.vy)
+       else None
 
-(** val write_bool : bool -> bytes **)
+(** val crosses : (vec * vec) list -> bool * bool **)
 
-let write_bool b =
-  (if b then Zpos XH else Z0) :: []
+let crosses edges =
+  let ys =
+    fold_right (fun e acc ->
+      match edge_cross e with
+      | Some y -> y :: acc
+      | None -> acc) [] edges
+  in
+  ((existsb (fun y -> qle_bool { qnum = Z0; qden = XH } y) ys),
+  (existsb (fun y -> qle_bool y { qnum = Z0; qden = XH }) ys))
 
-(** val read_bool : bytes -> (bool * bytes) res **)
+(** val closest_within : q -> q list -> q option **)
 
-let read_bool s =
-  bind (read_int s) (fun p -> let (z0, r) = p in OK ((negb (Z.eqb z0 Z0)), r))
+let closest_within d hs =
+  fold_left (fun acc hd ->
+    if negb (qle_bool hd d)
+    then acc
+    else (match acc with
+          | Some m -> if qltb hd m then Some hd else Some m
+          | None -> Some hd)) hs None
 
-(** val write_bytes : bytes -> bytes option **)
+(** val candidates : ('a1 -> q list) -> q -> 'a1 list -> ('a1 * q) list **)
 
-let write_bytes bs =
-  match write_int (Z.of_nat (length bs)) with
-  | Some h -> Some (app h bs)
-  | None -> None
+let candidates target_hits d batch =
+  fold_right (fun r acc ->
+    match closest_within d (target_hits r) with
+    | Some td -> (r, td) :: acc
+    | None -> acc) [] batch
 
-(** val read_bytes : bytes -> (bytes * bytes) res **)
+(** val blocked_by : ('a2 -> 'a1 -> q list) -> 'a2 -> ('a1 * q) -> bool **)
 
-let read_bytes s =
-  bind (read_int s) (fun p ->
-    let (n, r) = p in
-    if Z.ltb n Z0
-    then Err ETrunc
-    else if Z.ltb (Z.of_nat (length r)) n
-         then Err ETrunc
-         else take_exact (Z.to_nat n) r)
+let blocked_by occ_hits o c =
+  existsb (fun hd -> qle_bool hd (snd c)) (occ_hits o (fst c))
 
-type vty =
-| TInt
-| TBool
-| TFloat
-| TVec
-| TOri
-| TStr
-| TBytes
-| TNone
+(** val batch_survivors :
+    ('a1 -> q list) -> ('a2 -> 'a1 -> q list) -> q -> 'a1 list -> 'a2 list ->
+    ('a1 * q) list **)
 
-type val0 =
-| VInt of z
-| VBool of bool
-| VFix of bytes
-| VBlob of bytes
-| VNone
+let batch_survivors target_hits occ_hits d batch occs =
+  fold_left (fun cs o -> filter (fun c -> negb (blocked_by occ_hits o c)) cs)
+    occs (candidates target_hits d batch)
 
-(** val fixed_width : vty -> nat **)
+(** val rays_visible :
+    ('a1 -> q list) -> ('a2 -> 'a1 -> q list) -> q -> 'a1 list list -> 'a2
+    list -> bool **)
 
-let fixed_width = function
-| TFloat -> S (S (S (S (S (S (S (S O)))))))
-| TVec ->
-  S (S (S (S (S (S (S (S (S (S (S (S (S (S (S (S (S (S (S (S (S (S (S (S
-    O)))))))))))))))))))))))
-| TOri ->
-  S (S (S (S (S (S (S (S (S (S (S (S (S (S (S (S (S (S (S (S (S (S (S (S (S
-    (S (S (S (S (S (S (S O)))))))))))))))))))))))))))))))
-| _ -> O
+let rays_visible target_hits occ_hits d batches occs =
+  existsb (fun b ->
+    match batch_survivors target_hits occ_hits d b occs with
+    | [] -> false
+    | _ :: _ -> true) batches
 
-(** val write_value : vty -> val0 -> bytes option **)
+type sobj = { oid : nat; occluding : bool }
 
-let write_value t v =
-  match t with
-  | TInt -> (match v with
-             | VInt z0 -> write_int z0
-             | _ -> None)
-  | TBool -> (match v with
-              | VBool b -> Some (write_bool b)
-              | _ -> None)
-  | TStr -> (match v with
-             | VBlob p -> write_bytes p
-             | _ -> None)
-  | TBytes -> (match v with
-               | VBlob p -> write_bytes p
-               | _ -> None)
-  | TNone -> (match v with
-              | VNone -> Some []
-              | _ -> None)
-  | _ ->
-    (match v with
-     | VFix p -> if Nat.eqb (length p) (fixed_width t) then Some p else None
-     | _ -> None)
+(** val req_potential : sobj list -> nat -> nat -> sobj list **)
 
-(** val read_value : vty -> bytes -> (val0 * bytes) res **)
+let req_potential objects src tgt =
+  filter (fun o ->
+    (&&) (negb (Nat.eqb o.oid src)) (negb (Nat.eqb o.oid tgt))) objects
 
-let read_value t s =
-  match t with
-  | TInt -> bind (read_int s) (fun p -> let (z0, r) = p in OK ((VInt z0), r))
-  | TBool -> bind (read_bool s) (fun p -> let (b, r) = p in OK ((VBool b), r))
-  | TFloat ->
-    bind (take_exact (fixed_width t) s) (fun p0 ->
-      let (p, r) = p0 in OK ((VFix p), r))
-  | TVec ->
-    bind (take_exact (fixed_width t) s) (fun p0 ->
-      let (p, r) = p0 in OK ((VFix p), r))
-  | TOri ->
-    bind (take_exact (fixed_width t) s) (fun p0 ->
-      let (p, r) = p0 in OK ((VFix p), r))
-  | TStr ->
-    bind (read_bytes s) (fun p0 -> let (p, r) = p0 in OK ((VBlob p), r))
-  | TBytes ->
-    bind (read_bytes s) (fun p0 -> let (p, r) = p0 in OK ((VBlob p), r))
-  | TNone -> OK (VNone, s)
+(** val req_occluders : sobj list -> nat -> nat -> sobj list **)
 
-type node =
-| NFixed
-| NPrim of vty
-| NDet of nat list
-| NMux of nat * nat list
+let req_occluders objects src tgt =
+  filter (fun s -> s.occluding) (req_potential objects src tgt)
 
-type dag = node list
+(** val op_occluders : sobj list -> nat option -> nat option -> sobj list **)
 
-type seen = nat list
+let op_occluders objects x y =
+  let isnt = fun k o ->
+    match k with
+    | Some n -> negb (Nat.eqb o.oid n)
+    | None -> true
+  in
+  filter (fun o -> (&&) ((&&) o.occluding (isnt x o)) (isnt y o)) objects
 
-(** val mem : nat -> seen -> bool **)
+type vkind =
+| MustSee
+| MustNotSee
 
-let mem i s =
-  existsb (Nat.eqb i) s
+type vreq = { rk : vkind; rsrc : nat; rtgt : nat; rocc : sobj list }
 
-(** val ival : dag -> (nat -> val0) -> nat -> z option **)
+(** val observer_reqs :
+    bool -> sobj list -> ((vkind * nat) * nat) list -> vreq list **)
 
-let ival g pval ix =
-  match nth_error g ix with
-  | Some n ->
-    (match n with
-     | NPrim t ->
-       (match t with
-        | TInt -> (match pval ix with
-                   | VInt k -> Some k
-                   | _ -> None)
-        | _ -> None)
-     | _ -> None)
-  | None -> None
+let rec observer_reqs one_shot it = function
+| [] -> []
+| p :: rest ->
+  let (p0, t) = p in
+  let (k, s) = p0 in
+  { rk = k; rsrc = s; rtgt = t; rocc =
+  (req_occluders it s t) } :: (observer_reqs one_shot
+                                (if one_shot then [] else it) rest)
 
-(** val needs_sampling : dag -> nat -> bool **)
+(** val default_visibility_reqs :
+    bool -> sobj list -> (nat * nat) list -> (nat * nat) list -> nat -> nat
+    list -> vreq list **)
 
-let needs_sampling g i =
-  match nth_error g i with
-  | Some n -> (match n with
-               | NFixed -> false
-               | _ -> true)
-  | None -> false
-
-(** val py_index : z -> nat -> nat option **)
-
-let py_index k n =
-  let k' = if Z.ltb k Z0 then Z.add k (Z.of_nat n) else k in
-  if (&&) (Z.leb Z0 k') (Z.ltb k' (Z.of_nat n))
-  then Some (Z.to_nat k')
-  else None
-
-(** val enc_node :
-    dag -> (nat -> val0) -> nat -> nat -> seen -> (bytes * seen) option **)
-
-let rec enc_node g pval fuel i sn =
-  match fuel with
-  | O -> None
-  | S fuel' ->
-    if negb (needs_sampling g i)
-    then Some ([], sn)
-    else if mem i sn
-         then Some ([], sn)
-         else let sn0 = i :: sn in
-              (match nth_error g i with
-               | Some n ->
-                 (match n with
-                  | NFixed -> None
-                  | NPrim t ->
-                    (match write_value t (pval i) with
-                     | Some b -> Some (b, sn0)
-                     | None -> None)
-                  | NDet ds ->
-                    fold_left (fun acc d ->
-                      match acc with
-                      | Some y ->
-                        let (b, s) = y in
-                        (match enc_node g pval fuel' d s with
-                         | Some p -> let (b', s') = p in Some ((app b b'), s')
-                         | None -> None)
-                      | None -> None) ds (Some ([], sn0))
-                  | NMux (ix, os) ->
-                    (match enc_node g pval fuel' ix sn0 with
-                     | Some p ->
-                       let (b1, s1) = p in
-                       (match ival g pval ix with
-                        | Some k ->
-                          (match py_index k (length os) with
-                           | Some j ->
-                             (match nth_error os j with
-                              | Some c ->
-                                (match enc_node g pval fuel' c s1 with
-                                 | Some p0 ->
-                                   let (b2, s2) = p0 in Some ((app b1 b2), s2)
-                                 | None -> None)
-                              | None -> None)
-                           | None -> None)
-                        | None -> None)
-                     | None -> None))
-               | None -> None)
-
-(** val enc_sample : dag -> (nat -> val0) -> nat list -> bytes option **)
-
-let enc_sample g pval deps =
-  match fold_left (fun acc d ->
-          match acc with
-          | Some y ->
-            let (b, s) = y in
-            (match enc_node g pval (S (length g)) d s with
-             | Some p -> let (b', s') = p in Some ((app b b'), s')
-             | None -> None)
-          | None -> None) deps (Some ([], [])) with
-  | Some p -> let (b, _) = p in Some b
-  | None -> None
-
-type penv = (nat * val0) list
-
-(** val plook : nat -> penv -> val0 option **)
-
-let rec plook i = function
-| [] -> None
-| p :: t -> let (j, v) = p in if Nat.eqb i j then Some v else plook i t
-
-(** val ieval : dag -> penv -> nat -> z option **)
-
-let ieval g pe ix =
-  match nth_error g ix with
-  | Some n ->
-    (match n with
-     | NPrim t ->
-       (match t with
-        | TInt ->
-          (match plook ix pe with
-           | Some v -> (match v with
-                        | VInt k -> Some k
-                        | _ -> None)
-           | None -> None)
-        | _ -> None)
-     | _ -> None)
-  | None -> None
-
-(** val dec_node :
-    dag -> nat -> nat -> ((seen * penv) * bytes) -> ((seen * penv) * bytes)
-    res **)
-
-let rec dec_node g fuel i st =
-  match fuel with
-  | O -> Err EFuel
-  | S fuel' ->
-    let (p, s) = st in
-    let (sn, pe) = p in
-    if negb (needs_sampling g i)
-    then OK st
-    else if mem i sn
-         then OK st
-         else (match nth_error g i with
-               | Some n ->
-                 (match n with
-                  | NFixed -> Err EUnsupported
-                  | NPrim t ->
-                    bind (read_value t s) (fun p0 ->
-                      let (v, r) = p0 in OK (((i :: sn), ((i, v) :: pe)), r))
-                  | NDet ds ->
-                    bind
-                      (fold_left (fun acc d ->
-                        bind acc (fun a -> dec_node g fuel' d a)) ds (OK
-                        ((sn, pe), s))) (fun st' ->
-                      let (p0, s') = st' in
-                      let (sn', pe') = p0 in OK (((i :: sn'), pe'), s'))
-                  | NMux (ix, os) ->
-                    bind (dec_node g fuel' ix ((sn, pe), s)) (fun st1 ->
-                      let (p0, s1) = st1 in
-                      let (sn1, pe1) = p0 in
-                      (match ieval g pe1 ix with
-                       | Some k ->
-                         (match py_index k (length os) with
-                          | Some j ->
-                            (match nth_error os j with
-                             | Some c ->
-                               bind (dec_node g fuel' c ((sn1, pe1), s1))
-                                 (fun st2 ->
-                                 let (p1, s2) = st2 in
-                                 let (sn2, pe2) = p1 in
-                                 OK (((i :: sn2), pe2), s2))
-                             | None -> Err EBadIndex)
-                          | None -> Err EBadIndex)
-                       | None -> Err EUnsupported)))
-               | None -> Err EUnsupported)
-
-(** val dec_sample : dag -> nat list -> bytes -> (penv * bytes) res **)
-
-let dec_sample g deps s =
-  bind
-    (fold_left (fun acc d ->
-      bind acc (fun a -> dec_node g (S (length g)) d a)) deps (OK (([], []),
-      s))) (fun st -> let (p, r) = st in let (_, pe) = p in OK (pe, r))
-
-type header = { h_version : z; h_ast : bytes; h_opts : bytes }
-
-(** val write_header : header -> bytes **)
-
-let write_header h =
-  app (to_signed (S (S O)) h.h_version) (app h.h_ast h.h_opts)
-
-(** val bytes_eqb : bytes -> bytes -> bool **)
-
-let bytes_eqb a b =
-  (&&) (Nat.eqb (length a) (length b))
-    (forallb (fun pat -> let (x, y) = pat in Z.eqb x y) (combine a b))
-
-(** val read_header : header -> bytes -> bytes res **)
-
-let read_header expected s =
-  bind (take_exact (S (S O)) s) (fun p ->
-    let (v, r) = p in
-    if negb (Z.eqb (le_decode v) expected.h_version)
-    then Err EBadHeader
-    else (match take_exact (S (S (S (S O)))) r with
-          | OK a0 ->
-            let (a, r1) = a0 in
-            if negb (bytes_eqb a expected.h_ast)
-            then Err EBadHeader
-            else (match take_exact (S (S (S (S O)))) r1 with
-                  | OK a1 ->
-                    let (o, r2) = a1 in
-                    if negb (bytes_eqb o expected.h_opts)
-                    then Err EBadHeader
-                    else OK r2
-                  | Err _ -> Err EBadHeader)
-          | Err _ -> Err EBadHeader))
-
-(** val values_have_diverged : z -> z -> z -> bool **)
-
-let values_have_diverged expected actual tol =
-  let diff = Z.abs (Z.sub actual expected) in
-  if Z.eqb diff Z0 then negb (Z.eqb actual expected) else Z.ltb tol diff
+let default_visibility_reqs one_shot objects observing nonobserving ego require_visible =
+  app
+    (observer_reqs one_shot (filter (fun s -> s.occluding) objects)
+      (app (map (fun st -> ((MustSee, (fst st)), (snd st))) observing)
+        (map (fun st -> ((MustNotSee, (fst st)), (snd st))) nonobserving)))
+    (map (fun t -> { rk = MustSee; rsrc = ego; rtgt = t; rocc =
+      (req_occluders objects ego t) }) require_visible)
